@@ -232,16 +232,33 @@ func Match(c Clause, t *triple.Triple, env Env, lo, hi *time.Time) (Env, bool) {
 // (graph, triple) choice for every clause, clauses processed left to right,
 // OPTIONAL as a left outer join.
 func Solve(clauses []Clause, graphs []string, data Data, lo, hi *time.Time) []Env {
+	envs, _ := SolveMax(clauses, graphs, data, lo, hi, 1<<30)
+	return envs
+}
+
+// SolveMax is Solve with a cap on the number of intermediate solutions; ok is
+// false when the cap was exceeded (the case is then too big to be useful).
+func SolveMax(clauses []Clause, graphs []string, data Data, lo, hi *time.Time, max int) (res []Env, ok bool) {
 	envs := []Env{{}}
 	for _, c := range clauses {
+		if len(envs) > max {
+			return nil, false
+		}
 		var next []Env
+		// a clause that mentions no binding assigns nothing: it can only keep
+		// or drop an assignment, whatever the number of triples it matches
+		bindingFree := len(c.Bindings()) == 0
 		for _, e := range envs {
 			matched := false
+		graphLoop:
 			for _, g := range graphs {
 				for _, t := range data[g] {
 					if ne, ok := Match(c, t, e, lo, hi); ok {
 						next = append(next, ne)
 						matched = true
+						if bindingFree {
+							break graphLoop
+						}
 					}
 				}
 			}
@@ -257,7 +274,10 @@ func Solve(clauses []Clause, graphs []string, data Data, lo, hi *time.Time) []En
 		}
 		envs = next
 	}
-	return envs
+	if len(envs) > max {
+		return nil, false
+	}
+	return envs, true
 }
 
 // ProjectRows projects solutions on the SELECT list (no aggregation) and
